@@ -116,6 +116,7 @@ type Server struct {
 type StreamRec struct {
 	Srv, Inc, ID int
 	Client       string // name of the dialling manager (from the peer address)
+	Peer         string
 	MD           metadata.MD
 	Callbacks    int
 	CallbackSeq  uint64
@@ -260,6 +261,7 @@ func (w *World) onConnect(s *Server, inc int, ctx context.Context) {
 		if i := strings.IndexByte(a, ':'); i > 0 {
 			st.Client = a[:i]
 		}
+		st.Peer = a
 	}
 	w.mu.Unlock()
 	// name the gRPC-created stream goroutine deterministically
